@@ -6,6 +6,7 @@ package main
 import (
 	"encoding/json"
 	"fmt"
+	"runtime"
 	"sort"
 	"time"
 )
@@ -82,6 +83,8 @@ type Explorer struct {
 	Covers       map[string]int
 	Violations   []violation
 	violSeen     map[string]int
+	reassert     bool // the solver was restarted: replayed decisions must be pushed again
+	Refreshes    int
 	violVecs     map[string]bool
 	Inconclusive []string
 	Incomplete   string
@@ -195,7 +198,13 @@ func (e *Explorer) decide(kind string, n int, cond func(int) *Term, exhaustive b
 			panic(unsupported(fmt.Sprintf("non-deterministic re-execution: decision %d was %s/%d now %s/%d", e.pos, d.kind, d.n, kind, n)))
 		}
 		e.pos++
-		e.harvest(cond(d.chosen))
+		c := cond(d.chosen)
+		if e.reassert {
+			// the solver was restarted: rebuild its stack for the replayed prefix
+			e.solver.Push()
+			e.solver.Assert(c)
+		}
+		e.harvest(c)
 		return d.chosen
 	}
 	start := 0
@@ -208,6 +217,7 @@ func (e *Explorer) decide(kind string, n int, cond func(int) *Term, exhaustive b
 		start = d.chosen
 		flip = true
 		e.replayLen = -1 // from here on we are in new territory
+		e.reassert = false
 	} else {
 		e.trail = append(e.trail, decision{n: n, chosen: 0, kind: kind, payload: payload})
 	}
@@ -354,6 +364,9 @@ func (e *Explorer) assume(c *Term) {
 	}
 	e.harvest(c)
 	if e.replaying() {
+		if e.reassert {
+			e.solver.Assert(c)
+		}
 		return
 	}
 	e.solver.Assert(c)
@@ -656,8 +669,48 @@ func (e *Explorer) Run(entry func()) {
 			e.solver.PopTo(e.base)
 			return
 		}
+		e.maybeRefresh()
 	}
 }
+
+// maybeRefresh bounds the memory of very long runs: hash-consed terms (and their
+// definitions inside the solver) accumulate over the paths of a run. When the heap
+// passes the limit the intern tables are dropped and the solver process is replaced;
+// the next path re-asserts its decision prefix (reassert) instead of relying on the
+// retained assertion stack.
+func (e *Explorer) maybeRefresh() {
+	if e.Paths%512 != 0 || e.base != 0 {
+		return
+	}
+	if e.solver.Defs < defsRefreshLimit {
+		var ms runtime.MemStats
+		runtime.ReadMemStats(&ms)
+		if ms.HeapAlloc < heapRefreshLimit {
+			return
+		}
+		// is it live data or garbage?
+		runtime.GC()
+		runtime.ReadMemStats(&ms)
+		if ms.HeapAlloc < heapRefreshLimit/2 {
+			return
+		}
+	}
+	internSmall = map[termKey]*Term{}
+	internBig = map[string]*Term{}
+	e.atomConsts = nil
+	if err := e.solver.Restart(); err != nil {
+		e.inconclusive("solver restart failed: " + err.Error())
+		return
+	}
+	e.reassert = true
+	e.Refreshes++
+	runtime.GC()
+}
+
+var (
+	heapRefreshLimit uint64 = 2 << 30
+	defsRefreshLimit        = 3000000 // definitions held by one solver process
+)
 
 func (e *Explorer) runOnce(entry func()) (reason string) {
 	defer func() {
